@@ -10,7 +10,7 @@ ENGINE = 'E3 bytes'
 TECHNIQUE = ('differential property-based testing: one-shot vs. chunked delivery of generated / mutated inbound '
              'byte streams on twin connections (all single split points for short streams)')
 RULE = ('cases: an inbound byte stream from a peer model (valid conversation incl. CONTINUATION chains, pushes, '
-        'settings that change the frame-size limit for later frames), optionally mutated structurally or bytewise, or followed by a flood of 1100..2500 small frames of one kind; '
+        'settings that change the frame-size limit for later frames), optionally mutated structurally or bytewise, followed by a flood of 1100..2500 small frames of one kind, or by one frame that is 1..50000 bytes longer than the default MAX_FRAME_SIZE (with cuts in its tail); '
         'every single split point for streams <= 300 bytes (sampled otherwise), all pairs of split points for '
         'streams <= 60 bytes, all-one-byte delivery and drawn multi-splits; plus sequences of data_to_send(amount) '
         'reads against a single read on a twin; evaluations count executed (stream, chunking) pairs; non-trivial = '
@@ -60,10 +60,21 @@ def run_case(data):
         return output_side(ch, r)
     sc = bytesgen.build(ch, big_frames=True)
     frames = sc.frames
-    mut = ch.weighted([(5, 'none'), (3, 'frames'), (2, 'bytes'), (1, 'flood')])
+    mut = ch.weighted([(5, 'none'), (3, 'frames'), (2, 'bytes'), (1, 'flood'), (1, 'oversize')])
     start = 0 if sc.client else 1
     if mut == 'frames':
         frames, labs = bytesgen.mutate_frames(ch, frames, start)
+    tail_cuts = []
+    if mut == 'oversize':
+        # a last frame that is longer than the default MAX_FRAME_SIZE by one byte, two bytes or a lot (over-long,
+        # unless the scenario has raised the limit): refused - or not - at the same point however its tail is cut
+        extra = ch.pick([1, 2, 3, 10, 3616, 16384, 50000])
+        kind = ch.pick(['data', 'unknown', 'headers'])
+        payload = b'o' * (16384 + extra)
+        frames = list(frames) + [{'data': wire.data(1, payload), 'unknown': wire.raw(0x77, 0, 0, payload),
+                                  'headers': wire.raw(wire.HEADERS, wire.F_END_HEADERS, 101, payload)}[kind]]
+        tail_cuts = [1, 2, 3, extra, extra + 1, max(1, extra - 1), 3000]
+        r.labels.add('over-long-last-frame')
     if mut == 'flood':
         # more small frames than the interpreter allows nested calls: one receive_data call or many, the same
         flood, fk = bytesgen.frame_flood(ch)
@@ -92,6 +103,8 @@ def run_case(data):
     if n <= 400:
         cutsets.append(list(range(1, n)))
     cutsets += bytesgen.chunkings(ch, n, 4)
+    cutsets += [[n - k] for k in tail_cuts if 0 < k < n] + [[n - a, n - b] for a, b in ((3000, 1), (9, 2))
+                                                           if tail_cuts and a < n]
     r.step('role', 'client' if sc.client else 'server', 'mutation', mut, 'frames', len(frames), 'bytes', n,
            'labels', sorted(sc.labels), 'base-error', base[2], stream)
     nframes = len(bounds) - 1
